@@ -82,10 +82,8 @@ func (f *Dox) Call(s *slip.Scope, args slip.List, depth int) (result slip.Object
 					}
 					return tr
 				case *GoTo:
-					for i++; i < len(args); i++ {
-						if args[i] == tr.Tag {
-							break
-						}
+					if i = tr.Find(s, args, 2, depth); i < 0 {
+						return tr
 					}
 				}
 				// Anything other than ReturnResult or GoTo just continues.
